@@ -41,6 +41,7 @@ namespace occa {
     for (int i = 0; i < 8; ++i) {
       sh[i] = 0;
     }
+    h_string.clear();
     return *this;
   }
 
@@ -105,7 +106,9 @@ namespace occa {
   }
 
   std::string hash_t::getString() const {
-    if (*this != hash_t(sh)) {
+    // The cached short string is never empty, so an empty h_string means "not computed yet"
+    // (comparing against sh alone would treat an all-zero hash as already cached)
+    if (h_string.empty() || (*this != hash_t(sh))) {
       h_string = getFullString();
       h_string = (h_string.size() < 16) ? h_string : h_string.substr(0, 16);
       for (int i = 0; i < 8; ++i) {
